@@ -131,7 +131,8 @@ type Sim struct {
 	wd            *time.Timer
 	fcloseAt      int
 	Panicked      bool
-	advAfterClose int // clock travels after ForceClose
+	retired       []*Call // earlier calls whose message id was used again
+	advAfterClose int     // clock travels after ForceClose
 }
 
 var errSend = errors.New("verif: send failed")
